@@ -7,7 +7,7 @@ import SciVerif.Tie.Pins
 /-! Tie A obligations for C10 on the current source. -/
 namespace SciVerif.Tie
 -- functions the model relies on without an obligation of its own naming them (pinned by bin/mkpins):
--- PIN-ALSO: Scipipe.FileIP_AuditInfo Scipipe.FileIP_SetAuditInfo Scipipe.UnmarshalAuditInfoJSONFile
+-- PIN-ALSO: Scipipe.FileIP_AuditInfo Scipipe.FileIP_SetAuditInfo Scipipe.UnmarshalAuditInfoJSONFile Scipipe.NewAuditInfo Scipipe.FileIP_Tags Scipipe.FileIP_Tag Scipipe.FileIP_Param Scipipe.NewBaseIP Scipipe.randSeqLC
 open SciVerif.Generated
 
 /-- `writeAuditLogs` fills every field of the record, keys Upstream by input path (sub-stream
@@ -81,6 +81,7 @@ theorem generated_tags_copied :
      Scipipe.FileIP_AddTag.any (fun a => a.kind == .assign_ && a.name == "ai" && a.args == ["ip.AuditInfo()"])) = true := by decide
 
 
+
 -- BEGIN PINS (written by bin/mkpins; do not edit by hand)
 /-- the Go functions this property's model and obligations were written against have exactly the
 pinned skeletons (SHA-256 prefix of the atom list) -/
@@ -91,13 +92,19 @@ theorem pinned_skeletons_c10 :
      ("Scipipe.FileIP_AddTags", "7f98650d842d4c76"),
      ("Scipipe.FileIP_AuditFilePath", "23da9f52635ce6f9"),
      ("Scipipe.FileIP_AuditInfo", "5adb309a1fd92bb2"),
+     ("Scipipe.FileIP_Param", "e7d07bd717bdbe5b"),
      ("Scipipe.FileIP_SetAuditInfo", "9888139e5f6ebe46"),
+     ("Scipipe.FileIP_Tag", "726fd1d65b837092"),
+     ("Scipipe.FileIP_Tags", "058631429d637201"),
      ("Scipipe.FileIP_WriteAuditLogToFile", "4600f6f7f2efa41b"),
+     ("Scipipe.NewAuditInfo", "e3a18a6fa50d658d"),
+     ("Scipipe.NewBaseIP", "df4327cd0ddbcbbb"),
      ("Scipipe.NewTask", "95298f03c320cb96"),
      ("Scipipe.Task_Execute", "40fd1fec0c69deb2"),
      ("Scipipe.Task_executeCommand", "98e77d849c0638cb"),
      ("Scipipe.Task_writeAuditLogs", "5ee6e36ed2566be6"),
-     ("Scipipe.UnmarshalAuditInfoJSONFile", "d5d56678b2f7b950")] = true := by decide
+     ("Scipipe.UnmarshalAuditInfoJSONFile", "d5d56678b2f7b950"),
+     ("Scipipe.randSeqLC", "bad63c98d4ac4014")] = true := by decide
 -- END PINS
 
 end SciVerif.Tie
